@@ -39,6 +39,15 @@ fn family(name: &str, n: usize) -> String {
         "union-chain" => (0..n).map(|_| "//a".to_string()).collect::<Vec<_>>().join("|"),
         "long-path" => (0..n).map(|_| "a".to_string()).collect::<Vec<_>>().join("/"),
         "long-descendant-path" => (0..n).map(|_| "*".to_string()).collect::<Vec<_>>().join("//"),
+        // fan out and come back: without de-duplication between steps the work multiplies at every pair
+        "child-parent-steps" => format!("/r{}", "/node()/..".repeat(n)),
+        "descendant-or-self-steps" => format!("/{}", "/descendant-or-self::node()".repeat(n)).replacen("//", "/", 1),
+        "sibling-steps" => format!("/r/node(){}", "/following-sibling::node()/preceding-sibling::node()".repeat(n)),
+        "ancestor-descendant-steps" => format!("//node(){}", "/ancestor::node()/descendant::node()".repeat(n)),
+        // parentheses that are each continued at their own level (a parser that tries '(' twice doubles per level)
+        "nested-parens-continued" => format!("{}1{}", "(".repeat(n), "+1)".repeat(n)),
+        "nested-path-parens" => format!("{}/r{}", "(".repeat(n), "/a)".repeat(n)),
+        "nested-predicate-parens" => format!("{}//a{}", "(".repeat(n), "[1])".repeat(n)),
         "minus-run" => format!("{}1", "-".repeat(n)),
         "parent-run" => (0..n).map(|_| "..".to_string()).collect::<Vec<_>>().join("/"),
         "unclosed-parens" => "(".repeat(n),
@@ -60,6 +69,13 @@ const FAMILIES: &[(&str, &[usize])] = &[
     ("union-chain", &[10, 100, 1000]),
     ("long-path", &[10, 100, 2000]),
     ("long-descendant-path", &[2, 4, 6, 8, 10, 12]),
+    ("child-parent-steps", &[2, 4, 8, 12, 16, 40]),
+    ("descendant-or-self-steps", &[2, 4, 6, 8, 12, 24]),
+    ("sibling-steps", &[2, 4, 6, 10, 20]),
+    ("ancestor-descendant-steps", &[2, 4, 6, 10, 20]),
+    ("nested-parens-continued", &[2, 8, 14, 20, 26, 40]),
+    ("nested-path-parens", &[2, 8, 14, 20, 26, 40]),
+    ("nested-predicate-parens", &[2, 8, 14, 20, 26, 40]),
     ("minus-run", &[10, 1000, 100000]),
     ("parent-run", &[10, 1000]),
     ("unclosed-parens", &[10, 1000, 100000]),
@@ -98,7 +114,7 @@ impl Property for C06 {
         "expression strings x a pool of accepted documents and generated documents (PIs, namespaces, DTD-defaulted and #REQUIRED attributes, unparsed entities, CDATA and references, a doubling entity chain): \
          (a) token soup over the XPath alphabet incl. variable references, id(), processing-instruction('t'), unknown functions, axis names, odd numbers, unbalanced quotes and brackets; \
          (b) spellings of generated ASTs with 12% deliberately erroneous sub-expressions (variables, unknown functions, wrong arity, wrong argument types); (c) character-level mutants \
-         of valid spellings; (d) sized families: nested parentheses / function calls / predicates / filter predicates, operand and union chains, long paths, runs of '-' and '..', \
+         of valid spellings; (d) sized families: nested parentheses (plain and continued at every level) / function calls / predicates / filter predicates, operand and union chains, long paths, fan-out-and-return step chains (child/parent, descendant-or-self, siblings, ancestor/descendant), runs of '-' and '..', \
          unclosed brackets, huge numbers, many arguments. Oracle: in a worker process xml_xpath::query and the formatting of its result must return: a panic is caught and keyed by its \
          site, a worker death or an exhausted CPU budget (8 s) is attributed to the announced case; in addition '$v' must be an error, id() an error or an empty node-set, and '/..' \
          an error or an empty node-set. Non-trivial = the expression parsed and evaluation ran (a value or an evaluation error), or the case is a family member; distinct by (document, expression)."
